@@ -57,23 +57,59 @@ class Inliner:
         return ok
 
     # ------------------------------------------------------------------ substitution
-    def subst(self, e, args):
+    def typed(self, v, ty):
+        """annotate a substituted argument with the callee's parameter type (a crate ADT) so that later
+        range reasoning knows e.g. that it is a Rank or a Square"""
+        if ty is None or v is None or not isinstance(v, tuple):
+            return v
+        if v[0] in ('enum', 'int', 'typed', 'agg', 'ite', 'unk'):
+            return v
+        return ('typed', ty, v)
+
+    def subst(self, e, args, ptys=None):
         """replace ('param', n) and ('mem', ('p', n)) by the caller's argument expressions"""
         if not isinstance(e, tuple) or not e:
             return e
         t = e[0]
         if t == 'param':
-            return args[e[1] - 1] if e[1] - 1 < len(args) else ('unk', 'param')
+            if e[1] - 1 >= len(args):
+                return ('unk', 'param')
+            a = args[e[1] - 1]
+            ty = ptys[e[1] - 1] if ptys and e[1] - 1 < len(ptys) else None
+            if ty is not None and not ty[1]:
+                return self.typed(a, ty[0])
+            return a
         if t == 'mem':
             r = e[1]
             if r[0] == 'p':
                 a = args[r[1] - 1] if r[1] - 1 < len(args) else None
                 v = deref_value(a) if a is not None else None
-                return v if v is not None else ('unk', 'deref-arg')
-            return ('mem', (r[0], self.subst(r[1], args)))
-        return self.rebuild(t, e, lambda x: self.subst(x, args))
+                if v is None:
+                    return ('unk', 'deref-arg')
+                ty = ptys[r[1] - 1] if ptys and r[1] - 1 < len(ptys) else None
+                if ty is not None and ty[1]:
+                    return self.typed(v, ty[0])
+                return v
+            return ('mem', (r[0], self.subst(r[1], args, ptys)))
+        return self.rebuild(t, e, lambda x: self.subst(x, args, ptys))
+
+    def param_types(self, callee):
+        """per parameter: (ADT path, is_reference) when the parameter is (a reference to) a crate ADT, else None"""
+        fn = self.facts.fns.get(callee)
+        if not fn:
+            return None
+        out = []
+        for t in fn['inputs']:
+            isref = t.startswith('&')
+            base = t.lstrip('&')
+            if base.startswith('mut '):
+                base = base[4:]
+            out.append((base, isref) if base in self.facts.adts else None)
+        return out
 
     def rebuild(self, t, e, f):
+        if t == 'typed':
+            return ('typed', e[1], f(e[2]))
         if t == 'field':
             return mk_field(f(e[1]), e[2], self.an)
         if t == 'index':
@@ -119,6 +155,11 @@ class Inliner:
             if t == 'constdef':
                 return self.const_value(e)
             return e
+        if t == 'typed':
+            inner = self.fold(e[2])
+            if inner[0] in ('enum', 'int', 'agg', 'typed', 'ite'):
+                return inner
+            return ('typed', e[1], inner)
         e = self.rebuild(t, e, self.fold)
         t = e[0]
         if t == 'discr':
@@ -274,6 +315,11 @@ class Inliner:
             return e
         if t == 'constdef':
             return self.const_value(e)
+        if t == 'typed':
+            inner = self.inline(e[2], depth, only)
+            if inner[0] in ('enum', 'int', 'agg', 'typed', 'ite'):
+                return inner
+            return ('typed', e[1], inner)
         e = self.rebuild(t, e, lambda x: self.inline(x, depth, only))
         if e[0] == 'call' and depth > 0:
             callee = e[1]
@@ -281,7 +327,7 @@ class Inliner:
                 args = e[2]
                 if all(a[0] != 'ref' for a in args):
                     s = self.an.summary(callee)
-                    r = self.subst(s.ret, args)
+                    r = self.subst(s.ret, args, self.param_types(callee))
                     if not any(is_unk(x) for x in walk(r)):
                         return self.inline(r, depth - 1, only)
         if e[0] == 'after' and depth > 0:
